@@ -260,18 +260,68 @@ func runBucket(in input) (common.Case, error) {
 		}
 		coqBlocks = append(coqBlocks, common.Pair(tu.CoqLabels(b.Ext), common.List(ss)))
 	}
-	coqMs, _, err := tu.CoqMatchers(in.Ms, uni)
+	coqMs, pm, err := tu.CoqMatchers(in.Ms, uni)
 	if err != nil {
 		return c, err
 	}
-	srv := &recServer{ctx: context.Background()}
-	rerr := sc.Store.Series(&storepb.SeriesRequest{
-		MinTime: math.MinInt64 / 2, MaxTime: math.MaxInt64 / 2,
-		Matchers:             tu.ToPB(in.Ms),
-		WithoutReplicaLabels: in.WRL,
-		SkipChunks:           in.Skip,
-		ResponseBatchSize:    in.Batch,
-	}, srv)
+	// the request is repeated (BucketStore visits its block sets in map order); reported is the first
+	// answer with a series that no non-contradicted block can have produced, else the first answer
+	// that differs from the first one, else the first one
+	dropSet := map[string]bool{}
+	for _, d := range in.WRL {
+		dropSet[d] = true
+	}
+	explained := func(l labels.Labels) bool {
+		for _, b := range sc.Blocks {
+			all := true
+			b.Ext.Range(func(x labels.Label) {
+				if !dropSet[x.Name] && l.Get(x.Name) != x.Value {
+					all = false
+				}
+			})
+			for _, m := range pm {
+				if v := b.Ext.Get(m.Name); v != "" && !m.Matches(v) {
+					all = false
+				}
+			}
+			if all {
+				return true
+			}
+		}
+		return false
+	}
+	var srv *recServer
+	var rerr error
+	firstKey, differs := "", false
+	for rep := 0; rep < 6; rep++ {
+		s2 := &recServer{ctx: context.Background()}
+		e2 := sc.Store.Series(&storepb.SeriesRequest{
+			MinTime: math.MinInt64 / 2, MaxTime: math.MaxInt64 / 2,
+			Matchers:             tu.ToPB(in.Ms),
+			WithoutReplicaLabels: in.WRL,
+			SkipChunks:           in.Skip,
+			ResponseBatchSize:    in.Batch,
+		}, s2)
+		var ks []string
+		bad := false
+		for _, f := range s2.frames {
+			l := labelpb.ZLabelsToPromLabels(f.Labels)
+			ks = append(ks, l.String())
+			bad = bad || !explained(l)
+		}
+		sort.Strings(ks)
+		key := fmt.Sprint(e2 != nil, ks)
+		switch {
+		case rep == 0:
+			srv, rerr, firstKey = s2, e2, key
+		case key != firstKey && !differs:
+			srv, rerr, differs = s2, e2, true
+		}
+		if bad {
+			srv, rerr = s2, e2
+			break
+		}
+	}
 	o := common.None
 	var sets []labels.Labels
 	if rerr == nil {
@@ -330,6 +380,26 @@ func runBucket(in input) (common.Case, error) {
 			c.GoPred = fmt.Sprintf("bucket store: series %s carries the external labels of none of the blocks", l)
 			c.Sig = "missing-external-label"
 		}
+		// a request whose selectors contradict a block's external labels returns no series of that block
+		okc := false
+		for _, b := range sc.Blocks {
+			all := true
+			b.Ext.Range(func(x labels.Label) {
+				if !drop[x.Name] && l.Get(x.Name) != x.Value {
+					all = false
+				}
+			})
+			for _, m := range pm {
+				if v := b.Ext.Get(m.Name); v != "" && !m.Matches(v) {
+					all = false
+				}
+			}
+			okc = okc || all
+		}
+		if ok && !okc {
+			c.GoPred = fmt.Sprintf("bucket store: series %s was returned although the selectors contradict the external labels of every block it can come from", l)
+			c.Sig = "contradicting-block-returned"
+		}
 	}
 	for _, b := range sc.Blocks {
 		for _, sl := range b.Stored {
@@ -351,7 +421,7 @@ func genBlocks(r *rand.Rand) []tu.BlockIn {
 	for i := 0; i < n; i++ {
 		b := tu.BlockIn{}
 		used := map[string]bool{}
-		b.Ext = append(b.Ext, tu.Lbl{"cluster", common.Pick(r, "c1", "c1", "c2")})
+		b.Ext = append(b.Ext, tu.Lbl{"cluster", common.Pick(r, "c1", "c2", "c3")})
 		used["cluster"] = true
 		for q := r.Intn(3); q > 0; q-- {
 			nm := common.Pick(r, "region", "replica", "a", "zone")
@@ -451,10 +521,15 @@ func gen(r *rand.Rand, tier string, n int) []any {
 				}
 				in.Ms = append(in.Ms, m)
 			}
-			if r.Intn(4) == 0 {
+			if r.Intn(2) == 0 { // a selector on an external label, before or after the other selectors
 				e := blocks[r.Intn(len(blocks))].Ext
 				l := e[r.Intn(len(e))]
-				in.Ms = append(in.Ms, tu.MatcherIn{Type: r.Intn(4), Name: l[0], Value: common.Pick(r, l[1], l[1], "zz", "")})
+				m := tu.MatcherIn{Type: common.Pick(r, 0, 0, 2, 1, 3), Name: l[0], Value: common.Pick(r, l[1], l[1], l[1], "zz", "")}
+				if r.Intn(2) == 0 {
+					in.Ms = append([]tu.MatcherIn{m}, in.Ms...)
+				} else {
+					in.Ms = append(in.Ms, m)
+				}
 			}
 			for q := r.Intn(3); q > 0; q-- {
 				in.WRL = append(in.WRL, common.Pick(r, "replica", "region", "a", "cluster", "nope"))
